@@ -56,6 +56,8 @@ pub struct Stats {
     pub panic_transitions: u64,
     pub per_depth_states: Vec<u64>,
     pub samples: Vec<Vec<String>>,
+    /// depth from which frontier states were kept as histories and rebuilt by replay (memory)
+    pub lazy_from_depth: Option<usize>,
 }
 
 pub struct Caps {
@@ -83,8 +85,24 @@ pub fn rss_cap() -> u64 {
     std::env::var("VERIF_RSS_CAP_GB").ok().and_then(|s| s.parse::<u64>().ok()).unwrap_or(20) * (1 << 30)
 }
 
+/// Frontier entry. `db == None` is the *lazy* form: the state is rebuilt by replaying `hist` from its
+/// initial node when it is expanded (a `Database` clone per frontier state is what exhausts memory at
+/// depth 5-6; a history is a few hundred bytes).
+struct FNode<M> {
+    db: Option<Database>,
+    model: M,
+    hist: Vec<String>,
+    init: usize,
+}
+
 /// Explore all histories up to `max_depth`. With `dedup` states with equal fingerprints are merged
 /// (sound: equal values have equal futures); without it the plain tree is searched (stateless guard).
+///
+/// Memory: while it fits, frontier states are kept as live `Database` values. When the RSS guard
+/// would trip, a `dedup` search switches to the lazy frontier (histories only, states rebuilt by
+/// replay through `Spec::apply` from a clone of their initial node — the engine is deterministic, and
+/// the fingerprint of a rebuilt state is asserted to equal the one it was stored under); the search
+/// is reported `capped` only if even that does not fit or a time/state cap is hit.
 pub fn bfs<S: Spec>(spec: &S, max_depth: usize, dedup: bool, rep: &Report, caps: &Caps) -> Stats {
     // give freed memory of an earlier search back to the OS, so that the RSS-based memory guard
     // below measures this search and not the previous one
@@ -92,13 +110,18 @@ pub fn bfs<S: Spec>(spec: &S, max_depth: usize, dedup: bool, rep: &Report, caps:
     let t0 = Instant::now();
     let mut stats = Stats::default();
     let mut seen: HashSet<u128> = HashSet::new();
-    let mut frontier: Vec<Node<S::M>> = vec![];
+    let mut frontier: Vec<FNode<S::M>> = vec![];
+    let mut inits: Vec<(Database, usize)> = vec![];
     for n in spec.init() {
         let k = key_of(spec, &n.db, &n.model);
         if !dedup || seen.insert(k) {
-            frontier.push(n);
+            inits.push((n.db.clone(), n.hist.len()));
+            frontier.push(FNode { db: Some(n.db), model: n.model, hist: n.hist, init: inits.len() - 1 });
         }
     }
+    let lazy_allowed = dedup && std::env::var("VERIF_NO_LAZY_FRONTIER").is_err();
+    let mut lazy = false;
+    let replay_mismatch = std::sync::atomic::AtomicU64::new(0);
     stats.states = frontier.len() as u64;
     stats.per_depth_states.push(stats.states);
     for depth in 1..=max_depth {
@@ -110,69 +133,138 @@ pub fn bfs<S: Spec>(spec: &S, max_depth: usize, dedup: bool, rep: &Report, caps:
             stats.capped = true;
             break;
         }
-        // memory guard: the next level is at most |frontier| × |alphabet| nodes; stop (and say so)
-        // rather than be killed. Growth factor is estimated from the last two levels.
+        // memory guard: the next level is at most |frontier| × |alphabet| nodes; switch to the lazy
+        // frontier, or stop (and say so), rather than be killed. Growth factor is estimated from the
+        // last two levels.
         {
-            let rss = rss_bytes();
             let n = stats.per_depth_states.len();
             let growth = if n >= 2 && stats.per_depth_states[n - 2] > 0 {
                 (stats.per_depth_states[n - 1] as f64 / stats.per_depth_states[n - 2] as f64).max(1.0)
             } else {
                 8.0
             };
-            if rss > (1 << 30) && (rss as f64) * growth > rss_cap() as f64 {
+            let over = |g: f64| {
+                let rss = rss_bytes();
+                rss > (1 << 30) && (rss as f64) * g > rss_cap() as f64
+            };
+            if !lazy && over(growth) {
+                if lazy_allowed {
+                    lazy = true;
+                    stats.lazy_from_depth = Some(depth);
+                    for n in frontier.iter_mut() {
+                        n.db = None;
+                    }
+                    trim_heap();
+                } else {
+                    stats.capped = true;
+                    break;
+                }
+            }
+            // lazy frontier: only keys, models and histories grow (×growth per level)
+            if lazy && over(1.5) {
                 stats.capped = true;
                 break;
             }
         }
+        let t_left = (caps.max_secs - t0.elapsed().as_secs_f64()).max(1.0);
+        let t_level = Instant::now();
+        let timed_out = std::sync::atomic::AtomicBool::new(false);
+        // in-worker dedup (sharded) so that a level never materialises |frontier| × |alphabet| states
+        let shards: Vec<std::sync::Mutex<HashSet<u128>>> = (0..64).map(|_| std::sync::Mutex::new(HashSet::new())).collect();
+        let seen_ref = &seen;
         // expand every frontier node in parallel
-        let expanded: Vec<Vec<(Node<S::M>, u128, u8)>> = crate::util::par_map(&frontier, |_, node| {
+        let expanded: Vec<(Vec<FNode<S::M>>, [u64; 4])> = crate::util::par_map(&frontier, |_, node| {
             let mut outv = vec![];
-            for op in spec.alphabet(&node.db, &node.model, &node.hist) {
-                let mut db2 = node.db.clone();
+            let mut cnt = [0u64; 4]; // transitions, ok, err, panic
+            if timed_out.load(std::sync::atomic::Ordering::Relaxed) {
+                return (outv, cnt);
+            }
+            if t_level.elapsed().as_secs_f64() > t_left {
+                timed_out.store(true, std::sync::atomic::Ordering::Relaxed);
+                return (outv, cnt);
+            }
+            let rebuilt;
+            let base: &Database = match &node.db {
+                Some(d) => d,
+                None => {
+                    let (idb, ilen) = &inits[node.init];
+                    let mut d = idb.clone();
+                    for op in &node.hist[*ilen..] {
+                        let _ = spec.apply(&mut d, op);
+                    }
+                    rebuilt = d;
+                    &rebuilt
+                }
+            };
+            if node.db.is_none() && dedup {
+                // determinism of replay is what makes the lazy frontier sound: the rebuilt state must
+                // be a state already recorded
+                let k = key_of(spec, base, &node.model);
+                if !seen_ref.contains(&k) {
+                    replay_mismatch.fetch_add(1, std::sync::atomic::Ordering::Relaxed);
+                }
+            }
+            for op in spec.alphabet(base, &node.model, &node.hist) {
+                let mut db2 = base.clone();
                 let out = spec.apply(&mut db2, &op);
                 let mut hist = node.hist.clone();
                 hist.push(op.clone());
-                let cls = match &out {
-                    Out::Panic(_) => 2u8,
-                    Out::Err(..) => 1u8,
-                    _ => 0u8,
-                };
-                let m2 = spec.step(&node.db, &node.model, &op, &db2, &out, &hist, rep);
+                cnt[0] += 1;
+                match &out {
+                    Out::Panic(_) => cnt[3] += 1,
+                    Out::Err(..) => cnt[2] += 1,
+                    _ => cnt[1] += 1,
+                }
+                let m2 = spec.step(base, &node.model, &op, &db2, &out, &hist, rep);
                 if let Some(m2) = m2 {
-                    let k = if dedup { key_of(spec, &db2, &m2) } else { 0 };
-                    outv.push((Node { db: db2, model: m2, hist }, k, cls));
-                } else {
-                    // pruned: still counts as a transition
-                    outv.push((Node { db: Database::new(), model: node.model.clone(), hist: vec![] }, u128::MAX, cls | 0x80));
-                }
-            }
-            outv
-        });
-        let mut next: Vec<Node<S::M>> = vec![];
-        for v in expanded {
-            for (n, k, cls) in v {
-                stats.transitions += 1;
-                match cls & 0x7f {
-                    0 => stats.ok_transitions += 1,
-                    1 => stats.err_transitions += 1,
-                    _ => stats.panic_transitions += 1,
-                }
-                if cls & 0x80 != 0 {
-                    continue;
-                }
-                if !dedup || seen.insert(k) {
-                    if stats.samples.len() < 3 && n.hist.len() == depth {
-                        stats.samples.push(n.hist.clone());
+                    if dedup {
+                        let k = key_of(spec, &db2, &m2);
+                        if seen_ref.contains(&k) {
+                            continue;
+                        }
+                        if !shards[(k as usize) & 63].lock().unwrap().insert(k) {
+                            continue;
+                        }
                     }
-                    next.push(n);
+                    outv.push(FNode { db: if lazy { None } else { Some(db2) }, model: m2, hist, init: node.init });
                 }
             }
+            (outv, cnt)
+        });
+        let mut next: Vec<FNode<S::M>> = vec![];
+        for (v, cnt) in expanded {
+            stats.transitions += cnt[0];
+            stats.ok_transitions += cnt[1];
+            stats.err_transitions += cnt[2];
+            stats.panic_transitions += cnt[3];
+            for n in v {
+                if stats.samples.len() < 3 && n.hist.len() == inits[n.init].1 + depth {
+                    stats.samples.push(n.hist.clone());
+                }
+                next.push(n);
+            }
+        }
+        for sh in shards {
+            seen.extend(sh.into_inner().unwrap());
+        }
+        if timed_out.load(std::sync::atomic::Ordering::Relaxed) {
+            // the level was not completed: everything below it was
+            stats.capped = true;
+            stats.states += next.len() as u64;
+            frontier = next;
+            break;
         }
         stats.states += next.len() as u64;
         stats.per_depth_states.push(next.len() as u64);
         stats.depth_completed = depth;
         frontier = next;
+    }
+    let mm = replay_mismatch.load(std::sync::atomic::Ordering::Relaxed);
+    if mm > 0 {
+        rep.machinery_error(format!(
+            "histmc: {} states rebuilt by replay did not reproduce a recorded fingerprint (engine nondeterminism or state outside the Database value)",
+            mm
+        ));
     }
     if let Some(last) = frontier.last() {
         if stats.samples.len() < 4 {
@@ -210,6 +302,7 @@ pub fn stats_into(rep: &mut Report, prefix: &str, st: &Stats) {
     rep.set(&format!("{}transitions", prefix), json!(st.transitions));
     rep.set(&format!("{}depth_completed", prefix), json!(st.depth_completed));
     rep.set(&format!("{}capped", prefix), json!(st.capped));
+    rep.set(&format!("{}lazy_frontier_from_depth", prefix), json!(st.lazy_from_depth));
     rep.set(&format!("{}states_per_depth", prefix), json!(st.per_depth_states));
     rep.set(
         &format!("{}transition_outcomes", prefix),
